@@ -45,6 +45,7 @@ def setup(ctx):
     ctx.require("monitor", "error_points", 98)
     ctx.require("monitor", "defective_imports", 100)
     ctx.require("monitor", "roundtrip_hosts", 60)
+    ctx.require("monitor", "roundtrip_store_sizes", 6)
     ctx.require("monitor", "syscall_injections", 10)
     ctx.require("monitor", "failed_then_next_sequences", 40)
     ctx.require("monitor", "after_states_checked_against_model", 20)
@@ -711,6 +712,48 @@ def run_roundtrip(ctx, tmp, rng):
         ctx.case(("roundtrip", tuple(sorted(set(type_of(n) for n, _ in names)))), True, sample={"hosts": [list(r[:2]) for r in before][:5], "rows": len(before)})
 
 
+def run_roundtrip_sizes(ctx, tmp):
+    """Stores of 0, 1, 99, 100, 101, 257, 1000 (thorough: 5000) pins survive export -> import whole, whatever their
+    size: the export reports and writes every pin, the import restores every pin."""
+    from pathlib import Path
+
+    from nauyaca.security.tofu import TOFUDatabase
+
+    for size in (0, 1, 99, 100, 101, 257, 1000) + (() if ctx.quick() else (5000,)):
+        src = os.path.join(tmp, f"rts-src-{size}.db")
+        dst = os.path.join(tmp, f"rts-dst-{size}.db")
+        a = TOFUDatabase(Path(src))
+        conn = _real_connect(src)
+        conn.executemany("INSERT INTO known_hosts (hostname, port, fingerprint, first_seen, last_seen) VALUES (?, ?, ?, ?, ?)",
+                         [(f"h{i}.example", 1965 + (i % 3), fp(i % 3), f"2020-01-{1 + i % 28:02d}T00:00:00+00:00", f"2021-{1 + i % 12:02d}-01T00:00:00+00:00") for i in range(size)])
+        conn.commit()
+        conn.close()
+        before = dump(src)
+        f = os.path.join(tmp, f"rts-{size}.toml")
+        wit = {"pins_in_store": size}
+        try:
+            n = a.export_toml(Path(f))
+            b = TOFUDatabase(Path(dst))
+            res = b.import_toml(Path(f), merge=(size % 2 == 0))
+        except Exception as e:  # noqa: BLE001
+            if size == 0:
+                ctx.undecided("roundtrip-of-an-empty-store-raised")
+                continue
+            ctx.violation("roundtrip-loss:raised:large-store", f"export/import of a store with {size} pins raised {e!r}", dict(wit, error=repr(e)))
+            continue
+        after = dump(dst)
+        ctx.count("monitor", "roundtrip_hosts", len(before))
+        ctx.count("monitor", "roundtrip_store_sizes")
+        if len(before) != size:
+            ctx.inconclusive_because(f"roundtrip-sizes: the store holds {len(before)} pins, {size} were inserted")
+        elif n != size:
+            ctx.violation("roundtrip-loss:export-count", f"export of a store with {size} pins reported {n}", dict(wit, reported=n))
+        elif after != before:
+            missing = [r for r in before if r not in after]
+            ctx.violation("roundtrip-loss:large-store", f"export->import lost {len(missing)} of {size} pins", dict(wit, missing=[list(m[:2]) for m in missing[:4]], import_result=list(res) if isinstance(res, tuple) else str(res)))
+        ctx.case(("roundtrip-size", size, len(after)), True, sample=dict(wit, exported=n, restored=len(after)))
+
+
 def type_of(name):
     if name == "":
         return "empty"
@@ -862,6 +905,8 @@ def run(ctx):
         if ctx.mine(8):
             run_lookalikes(ctx, tmp)
         run_roundtrip(ctx, tmp, rng)
+        if ctx.mine(9) or ctx.nshards == 1:
+            run_roundtrip_sizes(ctx, tmp)
         run_strace(ctx, tmp)
     finally:
         Injector.uninstall()
